@@ -81,10 +81,13 @@ func init() {
 	}
 	add(c03Op{name: "SetPCR(the value PCR() reports)", kind: c03SetPCR, v: c03Current})
 	add(c03Op{name: "SetOPCR(the value OPCR() reports)", kind: c03SetOPCR, v: c03Current})
-	for n, nm := range []string{"0", "1", "2", "exact-fit", "fit+1", "256", "300"} {
+	// "framing-shaped": content that reads like the framing around it - private data that is a CableLabs EBP data
+	// field (DF len "EBP0" ...) followed by a second data field; an extension whose first byte is its own length
+	// minus one and whose second byte looks like a flags byte
+	for n, nm := range []string{"0", "1", "2", "exact-fit", "fit+1", "256", "300", "framing-shaped"} {
 		add(c03Op{name: "SetTransportPrivateData(len " + nm + ")", kind: c03SetPriv, n: n})
 	}
-	for n, nm := range []string{"0", "1", "2", "exact-fit", "fit+1", "256", "300"} {
+	for n, nm := range []string{"0", "1", "2", "exact-fit", "fit+1", "256", "300", "framing-shaped"} {
 		add(c03Op{name: "SetAdaptationFieldExtension(len " + nm + ")", kind: c03SetExt, n: n})
 	}
 	for n, nm := range []string{"empty", "all-fields", "pcr-only", "private-only", "extension+flags", "private-181",
@@ -310,11 +313,15 @@ func c03Apply(s *c03State, opi int, res *engine.Result) bool {
 		if *field == nil {
 			class = "absent"
 			wantErr = true
-			return c03Data(tag, []int{0, 1, 2, 3, 4, 256, 300}[op.n])
+			return c03Data(tag, []int{0, 1, 2, 3, 4, 256, 300, 6}[op.n])
 		}
 		fit := len(*field) + room
-		n := []int{0, 1, 2, fit, fit + 1, 256, 300}[op.n]
+		shaped := [][]byte{{0xDF, 0x09, 'E', 'B', 'P', '0', 0x80, 0x00, 0x00, 0x00, 0x00, 0x01, 0x02, 0x03}, {0x05, 0x3F, 0x11, 0x22, 0x33, 0x44}}[btoi(tag == 0xE0)]
+		n := []int{0, 1, 2, fit, fit + 1, 256, 300, len(shaped)}[op.n]
 		data := c03Data(tag, n)
+		if op.n == 7 {
+			copy(data, shaped)
+		}
 		switch {
 		case n > fit:
 			class = "present,too-large"
@@ -775,4 +782,11 @@ func init() {
 				}),
 		},
 	})
+}
+
+func btoi(b bool) int {
+	if b {
+		return 1
+	}
+	return 0
 }
